@@ -66,7 +66,7 @@ func runC12(s *kernel.Sim) {
 
 	stored := map[string]*c12stored{} // unique body -> what was stored
 	methods := []string{"GET", "POST"}
-	urls := []string{"a.com/x", "a.com/y", "b.io/x"}
+	urls := []string{"a.com/x", "a.com/y", "b.io/x", "a.com/X"} // "/X" and "/x" are different resources
 	// the record key includes the selected path parameters: one parameter, or two
 	// whose values contain the separator characters or are absent on one side
 	ids := []string{"1", "2"}
@@ -98,7 +98,7 @@ func runC12(s *kernel.Sim) {
 		return k.m + " " + k.u + " id=" + k.id
 	}
 	pickKey := func() key {
-		return key{methods[tp.Choose(2)], urls[tp.Choose(3)], ids[tp.Choose(len(ids))]}
+		return key{methods[tp.Choose(2)], urls[tp.Choose(len(urls))], ids[tp.Choose(len(ids))]}
 	}
 	n := 0
 	pads := []string{""}
